@@ -78,7 +78,9 @@ def impl_one(s):
         for form, attr in (("str", "short_tag"), ("org", "org_tag"), ("short", "short_tag"), ("long", "long_tag")):
             txt = str(hs) if form == "str" else hs.get_as_form(attr)
             hs2 = HedString(txt, schema())
-            rt[form] = shape_of(hs2.children, attr) == shape_of(hs.children, attr)
+            # equal tree = same nesting and, tag by tag, the same canonical short AND long form
+            rt[form] = (shape_of(hs2.children, "short_tag") == shape_of(hs.children, "short_tag")
+                        and shape_of(hs2.children, "long_tag") == shape_of(hs.children, "long_tag"))
         r["reparse"] = rt
         if not balanced(s):
             codes = [i["code"] for i in hs.validate()]
@@ -157,7 +159,9 @@ def oracle(r, res):
 
 TAGS = ["Red", "Event/Sensory-event", "Label/abc", "Duration/3 ms", "Blue", "red", "Item/Object", "Nonsense/x",
         "Def/Name", "Agent-action", "Property/Sensory-property/Sensory-attribute/Visual-attribute/Color/CSS-color/"
-        "Red-color/Red", "Red-color/Myext", "Parameter-value/1.5", "ts:Red", "{col}", "#", "Label/#"]
+        "Red-color/Red", "Red-color/Myext", "Parameter-value/1.5", "ts:Red", "{col}", "#", "Label/#",
+        "Red/", "Label/", "/Red", "Red//x", "Red/ x", "Red /x", "Event/", "Label/a/", "Label/a//b", "Red-color/",
+        "Duration/3 ms/", "RED", "label/ABC", "Def/Name/", "Sensory-event/ext/"]
 ODD = ["\t", " ", "​", "\U0001F600", "\n", "　", "é", "~", "[", "}", "  ", " "]
 
 
@@ -199,7 +203,7 @@ def gen_wellformed(rng, n):
             if d > 0 and rng.random() < 0.4:
                 items.append("(" + g(d - 1) + ")")
             else:
-                items.append(rng.choice(TAGS[:13]))
+                items.append(rng.choice(TAGS[:13] + TAGS[17:]))
         sep = rng.choice([",", ", ", " , ", ",  "])
         return sep.join(items)
     return [rng.choice(["", " "]) + g(rng.randint(0, 4)) + rng.choice(["", " "]) for _ in range(n)]
